@@ -541,6 +541,16 @@ func checkOneMutexPerMap(c *core.Ctx, rel string, impl core.Impl, mapField, mute
 					muOwn = append(muOwn, s.String())
 				}
 			}
+			// a mutex held by value is a new mutex in every copy of the handler, wherever the copy came from
+			if st, ok := impl.Named.Underlying().(*types.Struct); ok {
+				for i := 0; i < st.NumFields(); i++ {
+					if st.Field(i).Name() == mutexField {
+						if _, isPtr := st.Field(i).Type().(*types.Pointer); !isPtr {
+							muOwn = append(muOwn, "a copy of a mutex held by value")
+						}
+					}
+				}
+			}
 			c.Check(len(mapShared) == 0 || len(muOwn) == 0, "R17.4", key, c.P.Pos(al.Pos()), "map and mutex have the same sharing scope",
 				fmt.Sprintf("the handler is built around the shared map %s but with a mutex of its own (%s): handlers of different connections lock different mutexes around the same map", strings.Join(mapShared, ","), strings.Join(muOwn, ",")))
 		})
